@@ -2,3 +2,6 @@ from . import register
 
 register("T00",  # infrastructure self-test, not a property of properties.jsonl
          lean_modules=["GtModel.Model.Range"], theorems=[], streams=["range"])
+
+for _p in ("C01", "C02", "C03", "C08", "C10"):
+    register(_p, lean_modules=[], theorems=[], streams=["script"])
